@@ -12,7 +12,7 @@ RULE = ('per generated graph and factory: every ordered pair (a, b) of nodes x t
         'node, i.e. ancestor != parent somewhere; distinct by (factory, edges).')
 
 THEOREM = 'Hpv.Props.C03.*'
-FORMS = ('tid', 'str:', 'str_', 'idf')
+FORMS = ('tid', 'str:', 'str_', 'idf', 'stid', 'idf-stid', 'user-tid', 'str-sub')
 
 
 def queries_for(rng, edges, max_pairs=None):
@@ -148,6 +148,46 @@ def evaluate(ctx, cases, stream):
                                                     'impl': p, 'theorem': 'Hpv.Props.C03.predicates / converse / index_bijection'})
 
 
+def big_agreement(ctx, rng):
+    """complete DAGs on 40 nodes (780 edges) and on 262 nodes (34 191 edges: beyond 2^15 with few nodes): the indexed and the
+    incremental graph must agree with each other, with the edge list, with their converses and with the index API on sampled pairs"""
+    _, TermId, _, _ = gl._hp()
+    for n in (40, 262):
+        ids = [f'HP:{i:07d}' for i in rng.sample(range(1, 90000), n)]
+        edges = [(ids[j], ids[i]) for j in range(1, n) for i in range(j)]
+        rng.shuffle(edges)
+        ctx.case(['big-agreement', n], True, 'complete DAGs (40 / 262 nodes)', sample={'nodes': n, 'edges': len(edges)})
+        problem = None
+        try:
+            gs = {f: gl.build_impl(f, edges) for f in (('indexed', 'incremental', 'builder') if n == 40 else ('indexed', 'incremental'))}
+            pos = {v: k for k, v in enumerate(ids)}
+            for _ in range(150):
+                a, b = rng.choice(ids), rng.choice(ids)
+                ta, tb = TermId.from_curie(a), TermId.from_curie(b)
+                want = {'is_parent_of': pos[a] < pos[b], 'is_ancestor_of': pos[a] < pos[b], 'is_child_of': pos[a] > pos[b], 'is_descendant_of': pos[a] > pos[b]}
+                for f, g in gs.items():
+                    for meth, w in want.items():
+                        got = getattr(g, meth)(ta, tb)
+                        if bool(got) != w:
+                            problem = f'{f}: {meth}({a}, {b}) = {got} on the complete DAG of {n} nodes (positions {pos[a]}, {pos[b]})'
+                    for q, w in (('parents', set(ids[:pos[a]])), ('children', set(ids[pos[a] + 1:])), ('ancestors', set(ids[:pos[a]])), ('descendants', set(ids[pos[a] + 1:]))):
+                        got = gl.vals(getattr(g, 'get_' + q)(ta))
+                        if got != sorted(w):
+                            problem = f'{f}: get_{q}({a}) has {len(got)} elements ({len(set(got))} distinct), the edge list gives {len(w)}'
+                    if hasattr(g, 'node_to_idx') and problem is None:
+                        i = g.node_to_idx(ta)
+                        if g.idx_to_node(i) != ta or sorted(g.idx_to_node(int(k)).value for k in g.get_parents_idx(i)) != sorted(ids[:pos[a]]):
+                            problem = f'{f}: index API disagrees with the node API at {a}'
+                    if problem:
+                        break
+                if problem:
+                    break
+        except Exception as e:  # noqa
+            problem = f'raises {type(e).__name__}: {str(e)[:200]}'
+        if problem:
+            ctx.violation(f'big-agreement:{n}', {'case': {'kind': 'big-agreement', 'n': n}, 'impl': problem, 'theorem': 'Hpv.Props.C03.factories_agree'})
+
+
 def mk_cases(rng, edges, max_pairs=None):
     qs = queries_for(rng, edges, max_pairs)
     return [{'factory': f, 'edges': edges, 'queries': qs} for f in gl.FACTORIES]
@@ -176,6 +216,7 @@ def run(ctx):
         cases.extend(mk_cases(rng, edges, max_pairs=200))
     for i in range(0, len(cases), 300):
         evaluate(ctx, cases[i:i + 300], 'random')
+    big_agreement(ctx, rng)
 
 
 def replay(ctx, data):
